@@ -169,6 +169,7 @@ def run(ctx):
     if ctx.broken or ctx.mismatches:
         todo = todo * 1
     worst = 0.0
+    worst_res = [0.0, None]
     for (m, n, o, rho), w in todo:
         r = LogRule(n=n, method=m, order=o)
         step, mo = r.richardson_step, r.method_order
@@ -188,7 +189,11 @@ def run(ctx):
             val = s2float(tot)             # / h_0^n with h_0 = 1
             mag = sum(abs(float(wi)) * abs(s2float(d)) for wi, d in zip(wq, D))
             mag = max(mag, sum(abs(float(wi)) * (abs(float(d[0])) + abs(float(d[1])) * 1.5) for wi, d in zip(wq, D)))
-            bound = C_ROUND * EPS * (cond + 1) * max(mag, 1e-300)
+            # the moment of power k is a residual of the graded system (entries rho^(-j k), j < L): numpy's SVD-based pinv leaves it at
+            # eps times the dynamic range of that column, rho^(k (L-1)), long before the full condition number is reached (unchanged
+            # tree, exhaustive tables: at most 17 in these units); a rule tabulated to 11 digits misses that by orders of magnitude
+            grade = min(float(cond) + 1, float(rho) ** (k * (len(w) - 1)) * len(w))
+            bound = C_ROUND * EPS * grade * max(mag, 1e-300)
             allowed_residual = k >= n + mo and (k - n - mo) % step == 0
             if k == n:
                 expect = float(math.factorial(n))
@@ -198,6 +203,13 @@ def run(ctx):
                 expect = 0.0
             d = abs(val - expect)
             worst = max(worst, d / bound) if bound > 0 else worst
+            if mag > 0:
+                row = k
+                grade = min(float(cond), float(rho) ** (k * (len(w) - 1)) * len(w))
+                q = d / (EPS * mag * grade)
+                if q >= worst_res[0]:
+                    worst_res[0] = q
+                    worst_res[1] = (m, n, o, rho, k, float(cond), row, len(w), d / (EPS * mag))
             if d > bound and d > 1e-300:
                 what = ('rule does not reproduce the n-th derivative of u^n' if k == n else
                         ('rule is not exact below its order on u^%d' % k if k < n + mo else
@@ -206,6 +218,7 @@ def run(ctx):
                               bound=bound, cond=float(cond), weights=[float(x) for x in w])
                 break
     ctx.notes.append('worst |rule(monomial) - expected| / bound on this run: %.3g' % worst)
+    ctx.notes.append('worst moment residual / (eps * sum|w||D|): %.3g at %s' % (worst_res[0], worst_res[1]))
     pairing_search(ctx)
     ctx.assumptions.append('numpy.linalg.pinv is modelled by the exact inverse of the moment matrix; configurations with '
                            'cond*eps > 1e-3 are outside the property (numerically singular) and are counted, not compared')
